@@ -110,34 +110,74 @@ def truth_of_prefix(recs):
     return done, opened
 
 
-FAKE = 1 << 40
-
-
-def truth_of_suffix(recs, ti):
+def truth_of_suffix(recs, ti=0):
     """data that starts at depth > 0 (fork child, first buffers lost): the frames open at the first record are
-    inherited - they count from the first record's time, are named by their EXIT record (or <0> when they never
-    exit) and are never "recursive" (their address is unknown to the code).  In the ground truth each gets a
-    private address FAKE + ... ; returns (done, opened, {private address: real address or 0})"""
+    inherited - in the ground truth they are calls whose ENTRY address is 0 (unknown: never recursive), entered
+    at the first record's time and named by their EXIT record (<0> when they never exit).
+    A call is [a, t0, t1, kids] or, for an inherited frame, [0, a, t0, t1, kids]; returns (done, opened, k)"""
     ty0, d0, _, t_first = recs[0]
     k = d0 + (1 if ty0 == EXIT else 0)
     root = {"kids": []}
     stack = [root]
-    fakes = {}
     for lvl in range(k):
-        fa = FAKE + ti * 2048 + lvl
-        fakes[fa] = 0
-        stack.append({"a": fa, "t0": t_first, "kids": []})
+        stack.append({"a": 0, "t0": t_first, "kids": [], "inh": True})
     for ty, d, a, t in recs:
         if ty == ENTRY:
             stack.append({"a": a, "t0": t, "kids": []})
         else:
             fr = stack.pop()
-            if fr["a"] in fakes:
-                fakes[fr["a"]] = a
-            stack[-1]["kids"].append([fr["a"], fr["t0"], t, fr["kids"]])
+            if fr.get("inh"):
+                stack[-1]["kids"].append([0, a, fr["t0"], t, fr["kids"]])
+            else:
+                stack[-1]["kids"].append([fr["a"], fr["t0"], t, fr["kids"]])
     done = root["kids"]
     opened = [(fr["a"], fr["t0"], fr["kids"]) for fr in stack[1:]]
-    return done, opened, fakes
+    return done, opened, k
+
+
+def mark_lost(rng, forest, fns, tags):
+    """records of the forest with LOST markers where whole calls were dropped (the depth fields of the surviving
+    records agree with the nesting): markers before the first record, between siblings (replacing 0-2 complete
+    calls), doubled; the ground truth is the forest of the surviving records"""
+    out = []
+
+    def lost(n):
+        out.append((LOST, 0, max(n, 1), 0))
+        tags.append("marker")
+        if rng.random() < 0.2:
+            out.append((LOST, 0, 1, 0))
+            tags.append("marker-doubled")
+
+    def size(c):
+        return 1 + sum(size(k) for k in c.kids)
+
+    def seq(cs, d):
+        i = 0
+        while i < len(cs):
+            r = rng.random()
+            if r < 0.15:
+                n = rng.randrange(0, 3)
+                lost(2 * sum(size(c) for c in cs[i:i + n]))
+                if n:
+                    tags.append("marker-dropped-calls")
+                i += n
+                continue
+            c = cs[i]
+            out.append((ENTRY, d, fns[c.k].addr, c.t0))
+            if rng.random() < 0.1:
+                lost(0)
+                tags.append("marker-after-entry")
+            seq(c.kids, d + 1)
+            if rng.random() < 0.1:
+                lost(0)
+                tags.append("marker-before-exit")
+            out.append((EXIT, d, fns[c.k].addr, c.t1))
+            i += 1
+    if rng.random() < 0.2:
+        lost(0)
+        tags.append("marker-first")
+    seq(forest, 0)
+    return out
 
 
 def has_recursion(forest, fns, mutual=False):
@@ -157,7 +197,7 @@ def gen_case(ctx, idx, program=None, kind=None):
     else:
         syms, fns = program[0], [Fn(a, n) for a, n in program[1]]
     ntask = rng.choice([1, 1, 2, 2, 3, 4])
-    kind = kind or rng.choice(["forest"] * 6 + ["lost", "lost", "suffix", "extra-exit", "overflow"])
+    kind = kind or rng.choice(["forest"] * 6 + ["lost", "marked", "marked", "suffix", "extra-exit", "overflow"])
     scale = rng.choice([1] * 8 + [1000, 10 ** 6, 10 ** 9, 6 * 10 ** 10])
     big = ctx.thorough() and rng.random() < 0.1
     max_stack = 1024
@@ -177,19 +217,24 @@ def gen_case(ctx, idx, program=None, kind=None):
         if any(r[0] == EXIT and any(e[0] == ENTRY and e[3] == r[3] and e[2] == r[2] for e in recs) for r in recs):
             tags.append("zero-duration-call")
         truth = None
-        if kind in ("forest", "extra-exit", "overflow") and rng.random() < 0.45 and len(recs) > 2:
+        if kind == "marked":
+            recs = mark_lost(rng, forest, fns, tags)
+        if kind in ("forest", "marked", "extra-exit", "overflow") and rng.random() < 0.45 and len(recs) > 2:
             recs = recs[:rng.randrange(1, len(recs))]
             tags.append("open-at-end")
-        if kind == "forest":
-            truth = truth_of_prefix(recs)
+        if kind == "marked":
+            while recs and recs[-1][0] == LOST:        # a marker as the last record: the "lost" kind
+                recs = recs[:-1]
+            if not recs:
+                recs = flat_recs(forest, fns)
+        if kind in ("forest", "marked"):
+            truth = truth_of_prefix([r for r in recs if r[0] != LOST])
             if truth[1]:
                 tags.append("open-depth-%d" % min(len(truth[1]), 3))
         elif kind == "lost":
             # LOST records as libmcount writes them (time 0, addr = number lost), a chunk of the
             # following records is missing
-            # exactly one marker per task: a second LOST after records were dropped is the class of the known
-            # finding lost-after-inherited-wrap (the stack then "starts at depth > 0"); its witness is run separately
-            for _ in range(1):
+            for _ in range(rng.randrange(1, 3)):
                 p = rng.randrange(0, len(recs) + 1)
                 drop = rng.randrange(0, 4)
                 lost = (LOST, 0, max(drop, 1), 0 if rng.random() < 0.8 else (recs[min(p, len(recs) - 1)][3]))
@@ -204,8 +249,9 @@ def gen_case(ctx, idx, program=None, kind=None):
                 if recs[0][0] == EXIT:
                     tags.append("starts-with-exit")
                 truth = truth_of_suffix(recs, ti)
-                if any(v == 0 for v in truth[2].values()):
+                if any(o[0] == 0 for o in truth[1]):
                     tags.append("inherited-frame-never-exits")
+                tags.append("inherited-%d" % min(truth[2], 3))
         elif kind == "extra-exit":
             t = recs[-1][3] + 7 * scale
             d, _ = truth_of_prefix(recs)
@@ -266,6 +312,14 @@ CORPUS = [
      "tasks": [{"tid": 100, "recs": [(LOST, 0, 1, 0), (EXIT, 2, BASE + 0x1200, 1300), (EXIT, 1, BASE + 0x1100, 1400),
                                      (ENTRY, 1, BASE + 0x1100, 1500), (LOST, 0, 1, 0), (EXIT, 0, BASE + 0x1000, 1900)]}]},
 ]
+CORPUS.append(
+    # fixed c76be09: every LOST marker took 1 ns from the Self time of the innermost open call
+    {"kind": "marked", "max_stack": 1024, "tags": ["corpus:lost-marker-1ns"],
+     "syms": [(0x1000, 0x80, "T", "main"), (0x1100, 0x80, "T", "work")],
+     "fns": [(BASE + 0x1000, "main"), (BASE + 0x1100, "work")],
+     "tasks": [{"tid": 100, "marked_truth": True,
+                "recs": [(ENTRY, 0, BASE + 0x1000, 1000), (ENTRY, 1, BASE + 0x1100, 1100), (LOST, 0, 1, 0),
+                         (EXIT, 1, BASE + 0x1100, 1900), (LOST, 0, 1, 0), (EXIT, 0, BASE + 0x1000, 2000)]}]})
 WITNESS_LOST_WRAP = "corpus:lost-after-inherited-wrap"
 
 
@@ -277,6 +331,8 @@ def corpus_cases():
         for t in c["tasks"]:
             if "recs" in t:
                 tr = truth_of_suffix(list(t["recs"]), len(tasks)) if t.get("suffix_truth") else None
+                if t.get("marked_truth"):
+                    tr = truth_of_prefix([r for r in t["recs"] if r[0] != LOST])
                 tasks.append({"tid": t["tid"], "recs": list(t["recs"]), "truth": tr})
                 continue
             recs = flat_recs([Call.from_json(j) for j in t["forest"]], fns)
@@ -305,10 +361,6 @@ def name_table(case):
                 return n
         return "<%x>" % a
     amap = {a: nm(a) for a in addrs}
-    for t in case["tasks"]:
-        if t.get("truth") and len(t["truth"]) > 2:
-            for fa, real in t["truth"][2].items():
-                amap[fa] = nm(real)
     allnames = sorted(set(amap.values()) | set(s[3] for s in case["syms"]), key=lambda s: s.encode())
     num = {n: i + 1 for i, n in enumerate(allnames)}
     return {a: num[n] for a, n in amap.items()}, num, amap
@@ -408,6 +460,8 @@ def q_list(xs):
 
 
 def q_call(c):
+    if len(c) == 5:
+        return "CallX %d %d %d %d %s" % (c[0], c[1], c[2], c[3], q_list([q_call(k) for k in c[4]]))
     return "Call %d %d %d %s" % (c[0], c[1], c[2], q_list([q_call(k) for k in c[3]]))
 
 
@@ -423,9 +477,9 @@ def q_truth(case):
     return "Some " + q_list(tts)
 
 
-def truth_is_flat(case):
-    """the ground truth flattens to exactly the records written (no inherited frames)"""
-    return all(t["truth"] is not None and (len(t["truth"]) < 3 or not t["truth"][2]) for t in case["tasks"])
+def inherited_counts(case):
+    """per task: number of frames open at the first record (0 for data starting at depth 0)"""
+    return [(t["truth"][2] if t["truth"] is not None and len(t["truth"]) > 2 else 0) for t in case["tasks"]]
 
 
 def q_case(case, amap):
@@ -464,7 +518,11 @@ Definition nd nm call ts tr ta tmi tma ss sr sa smi sma :=
   mknode nm call (mkstat ts tr tmi tma ta) (mkstat ss sr smi sma sa).
 Record tcase := mk { tc : case; i_rows : list (list (N * N * N * bool)); i_tbl : list node;
                      i_sorts : list (list key * list N); i_truth : option (list ttrace);
-                     i_order : list nat; i_grows : list (N * N * N * bool); i_flat : bool }.
+                     i_order : list nat; i_grows : list (N * N * N * bool); i_inh : list nat }.
+(* generator self-check: the ground truth flattens to the records written, LOST markers erased, preceded by one
+   ENTRY record of address 0 at the first record's time per frame open when the data begins *)
+Definition zeros' (k : nat) (rs : list rec) : list rec :=
+  match rs with [] => [] | r0 :: _ => map (fun i => mkrec ENTRY (N.of_nat i) 0 (r_time r0)) (seq 0 k) end.
 (* the merged stream: i_order names the task whose next record is read (min time, lowest index on ties) *)
 Fixpoint weave (order : list nat) (tasks : list (list rec)) : list (nat * rec) :=
   match order with
@@ -485,8 +543,10 @@ Definition sorts_ok t := forallb (fun p => list_eqb (map n_name (sort_nodes (fst
 Definition rec_eqb (a b : rec) := Bool.eqb (is_exit a) (is_exit b) && Bool.eqb (is_lost a) (is_lost b)
   && (r_depth a =? r_depth b) && (r_addr a =? r_addr b) && (r_time a =? r_time b).
 Fixpoint recs_eqb (a b : list rec) := match a, b with [], [] => true | x :: a', y :: b' => rec_eqb x y && recs_eqb a' b' | _, _ => false end.
-Definition truth_ok t := negb (i_flat t) || match i_truth t with
-                         | Some tts => forallb (fun p => recs_eqb (trace_recs (fst p)) (snd p)) (combine tts (c_tasks (tc t)))
+Definition truth_ok t := match i_truth t with
+                         | Some tts => forallb (fun p => let rs := filter (fun r => negb (is_lost r)) (snd (fst p)) in
+                                                         recs_eqb (trace_recs (fst (fst p))) (zeros' (snd p) rs ++ rs))
+                                               (combine (combine tts (c_tasks (tc t))) (i_inh t))
                                        && Nat.eqb (length tts) (length (c_tasks (tc t)))
                          | None => true end.
 Definition prop_table t := match i_truth t with Some tts => ok_table (c_names (tc t)) tts (i_tbl t) | None => true end.
@@ -523,7 +583,7 @@ def q_tcase(case, res, amap, num):
                     for n, tot, slf, rc in res["grows"]])
     return "mk (%s) %s %s %s (%s) %s %s %s" % (q_case(case, amap), q_list(rows), q_list([q_node(n, num) for n in res["nodes"]]),
                                             sorts, q_truth(case), q_list(["%d%%nat" % i for i in merge_order(case)]), grows,
-                                            coq.coq_bool(truth_is_flat(case)))
+                                            q_list(["%d%%nat" % k for k in inherited_counts(case)]))
 
 
 # ---------------------------------------------------------------- end-to-end option sets
@@ -661,7 +721,7 @@ def case_json(case):
             "tasks": [{"tid": t["tid"], "recs": [list(r) for r in t["recs"]],
                        "truth": None if t["truth"] is None else
                        [t["truth"][0], [list(o) for o in t["truth"][1]],
-                        {str(k): v for k, v in (t["truth"][2] if len(t["truth"]) > 2 else {}).items()}]}
+                        (t["truth"][2] if len(t["truth"]) > 2 else 0)]}
                       for t in case["tasks"]]}
 
 
@@ -672,7 +732,7 @@ def case_from_json(j):
             "tasks": [{"tid": t["tid"], "recs": [tuple(r) for r in t["recs"]],
                        "truth": None if t["truth"] is None else
                        (t["truth"][0], [tuple(o) for o in t["truth"][1]],
-                        {int(k): v for k, v in (t["truth"][2] if len(t["truth"]) > 2 else {}).items()})}
+                        (t["truth"][2] if len(t["truth"]) > 2 else 0))}
                       for t in j["tasks"]]}
 
 
@@ -702,10 +762,12 @@ def common_meta(ctx):
         "total-stdv/self-stdv (floating point) are not modelled or compared; sort keys *_stdv and `size` are not generated; "
         "--diff is exercised with the default policy/key only; rows of equal |difference| are compared as a set; the "
         "sign of a time difference is judged (minus = decrease)",
-        "LOST markers (one per task), EXIT at stack 0 and max_stack overflow are compared with the model only; data "
+        "LOST markers with whole calls dropped (kind `marked`) are judged by the checkers against the forest of the "
+        "surviving records; LOST markers with unbalanced drops, EXIT at stack 0 and max_stack overflow are compared "
+        "with the model only; data "
         "starting at depth>0 (fork child) is judged by the checkers with inherited frames counted from the task's "
-        "first record, named by their EXIT record and never recursive; a LOST after such a start is the known finding "
-        "lost-after-inherited-wrap (dedicated witness only)",
+        "first record, named by their EXIT record and never recursive; the witness of the fixed "
+        "lost-after-inherited-wrap defect is a regression case (an unlisted reappearance is a VIOLATION)",
         "printed figures below 1000 hours (above, __print_time_unit prints 999.999)",
         "accumulated sums stay below 2^64 ns in the theorems about exact sums (the model itself wraps like uint64_t)",
     ]
